@@ -34,7 +34,9 @@ TNext == /\ l <= Len(Log) /\ l' = l + 1
          /\ \/ Ev.e = "Reset" /\ cfg' = Ev.cfg
             \/ Ev.e = "Eval" /\ EvalMatches /\ UNCHANGED cfg
             \/ Ev.e = "Split" /\ UNCHANGED cfg          \* make_arg_array: words, argc, argv[argc] = NULL, program name
-               /\ Ev.out = "ok" /\ Ev.words = SplitStr(Ev.cmd)
+               \* strings that are not the join of escaped non-empty words (raw = TRUE: unbalanced quotes, empty quoted
+               \* words, trailing backslash) carry no claim about the words, only about argc / NULL / program name
+               /\ Ev.out = "ok" /\ (Ev.raw \/ Ev.words = SplitStr(Ev.cmd))
                /\ Ev.argc = Len(Ev.words) + 1 /\ Ev.nullterm
                /\ Ev.prog0 = (IF Ev.withprog THEN Ev.prog ELSE <<112, 114, 111, 103, 114, 97, 109, 110, 97, 109, 101>>)
             \/ Ev.e = "Usage" /\ UNCHANGED cfg /\ Ev.out = "ok" /\ Ev.stray = 0
